@@ -10,6 +10,10 @@ scheduler-aware lock (an acquire of a held lock parks the thread as "blocked": a
 model object holding one flag, `backend_z3.log` by a proxy that counts `error()` calls made inside the guard.  These are
 module globals looked up at call time, so nothing in /repo is touched.
 
+ENVIRONMENT steps (thread id n+1 in schedules): the scheduler itself flips the model collector flag - the application
+calling gc.enable()/gc.disable() - but only while the guard is idle (no thread inside the guard, nothing in flight), at
+most `flips` times per run; `base` remembers what the application last chose.
+
 In flight (per thread) = _enter_z3 has RETURNED and the matching _exit_z3 has not yet been CALLED (resumed from its
 `call` park).
 
@@ -179,13 +183,16 @@ def expected_outcomes(items):
 class Run:
     """one execution: fresh threads, fresh guard state"""
 
-    def __init__(self, env, scripts, gc0, drivers=None, watchdog=15.0, want_locals=False):
+    def __init__(self, env, scripts, gc0, drivers=None, watchdog=15.0, want_locals=False, flips=0):
         self.env = env
         bz = env.bz
         self.n = len(scripts)
         self.scripts = [list(s) for s in scripts]
         self.drivers = drivers or [None] * self.n
         self.gc0 = bool(gc0)
+        self.maxflips = int(flips or 0)
+        self.flips = 0
+        self.base = bool(gc0)
         self.watchdog = watchdog
         self.want_locals = want_locals
         for k, v in env.init.items():
@@ -365,8 +372,23 @@ class Run:
                 self.outcomes[t].append("ok")
 
     # ------------------------------------------------------------------ scheduler side
+    def idle(self):
+        return not any(self.ins) and all(f == 0 or k == "fin" for f, k in zip(self.fl, self.kind))
+
+    def env_enabled(self):
+        return self.flips < self.maxflips and self.idle()
+
     def step(self, t):
-        """resume thread t (0-based) until its next park; returns the park kind"""
+        """resume thread t (0-based) until its next park; returns the park kind.  t == n is the environment: the
+        application flips the collector flag (only while idle; otherwise the step is disabled = "blocked")"""
+        if t == self.n:
+            if not self.env_enabled():
+                return "blocked"
+            self.steps += 1
+            self.gc.flag = not self.gc.flag
+            self.base = self.gc.flag
+            self.flips += 1
+            return "ev"
         if self.kind[t] == "fin":
             raise ValueError("thread finished")
         self.cur = t
@@ -382,7 +404,10 @@ class Run:
     def candidates(self):
         """threads that may be able to move: not finished, and not known to be waiting for a held lock"""
         held = self.lock.holder is not None
-        return [t for t in range(self.n) if self.kind[t] != "fin" and not (held and self.kind[t] == "blocked")]
+        c = [t for t in range(self.n) if self.kind[t] != "fin" and not (held and self.kind[t] == "blocked")]
+        if self.env_enabled():
+            c.append(self.n)
+        return c
 
     def all_fin(self):
         return all(k == "fin" for k in self.kind)
@@ -397,22 +422,23 @@ class Run:
         """observable state for spec/GcGuardAbs.tla"""
         return {"gc": self.gc.flag, "act": int(self._anchor(ANCHOR_COUNT)), "ufl": self.ufl, "fl": list(self.fl),
                 "ins": list(self.ins), "pos": list(self.pos), "fin": [k == "fin" for k in self.kind],
-                "bgc": self.bgc, "crash": self.crash, "dead": self.dead}
+                "base": self.base, "flips": self.flips, "bgc": self.bgc, "crash": self.crash, "dead": self.dead}
 
     def proj(self):
         """projection compared with the model's node"""
         h = self.lock.holder
         return {"active": int(self._anchor(ANCHOR_COUNT)), "saved": bool(self._anchor(ANCHOR_SAVED)),
                 "gc": self.gc.flag, "lock": 0 if h is None else h + 1, "ufl": self.ufl,
-                "pc": [[("line" if k == "blocked" else k), f, o] for k, f, o in zip(self.kind, self.func, self.off)],
-                "pos": list(self.pos), "inflight": list(self.fl), "ins": list(self.ins)}
+                "pc": [[("line" if k == "blocked" else k), f, o] for k, f, o in zip(self.kind, self.func, self.off)]
+                      + [["ev" if self.flips < self.maxflips else "fin", "", 0]],
+                "base": self.base, "flips": self.flips, "pos": list(self.pos), "inflight": list(self.fl), "ins": list(self.ins)}
 
     def state_hash(self):
         bz = self.env.bz
         g = tuple((k, getattr(bz, k, None)) for k in sorted(self.env.init))
         th = tuple((("line" if k == "blocked" else k), f, o, s, p, fl, i)
                    for k, f, o, s, p, fl, i in zip(self.kind, self.func, self.off, self.stack, self.pos, self.fl, self.ins))
-        return hash((g, self.gc.flag, self.lock.holder, self.ufl, self.crash, self.bgc, th))
+        return hash((g, self.gc.flag, self.lock.holder, self.ufl, self.crash, self.bgc, self.base, self.flips, th))
 
     def finish(self):
         """unwind whatever is still parked"""
@@ -432,23 +458,23 @@ class Run:
 # ----------------------------------------------------------------------------------------------------------------
 
 def _cfg(job):
-    return {"scripts": [list(s) for s in job["scripts"]], "gc0": bool(job["gc0"])}
+    return {"scripts": [list(s) for s in job["scripts"]], "gc0": bool(job["gc0"]), "flips": int(job.get("flips") or 0)}
 
 
 def run_schedule(env, job, sched, watchdog=15.0):
     """execute one schedule (1-based thread ids); stops at the first step that cannot be taken.
     returns (states, executed_schedule, info)"""
-    run = Run(env, job["scripts"], job["gc0"], job.get("drivers"), watchdog=watchdog)
+    run = Run(env, job["scripts"], job["gc0"], job.get("drivers"), watchdog=watchdog, flips=job.get("flips"))
     st = [run.obs()]
     done = []
     info = {"diverged": None}
     try:
         for k, t in enumerate(sched):
             t0 = t - 1
-            if t0 < 0 or t0 >= run.n or run.kind[t0] == "fin":
+            if t0 < 0 or t0 > run.n or (t0 < run.n and run.kind[t0] == "fin"):
                 info["diverged"] = f"step {k}: thread {t} has finished"
                 break
-            if run.kind[t0] == "blocked" and run.lock.holder is not None:
+            if t0 < run.n and run.kind[t0] == "blocked" and run.lock.holder is not None:
                 info["diverged"] = f"step {k}: thread {t} is blocked"
                 break
             r = run.step(t0)
@@ -491,10 +517,10 @@ def job_replay(env, job, out):
     with open(out + ".traces.ndjson", "w") as tf:
         for pi, path in enumerate(job["paths"]):
             drivers = path.get("drivers", job.get("drivers"))
-            j = {"scripts": job["scripts"], "gc0": path["gc0"], "drivers": drivers}
+            j = {"scripts": job["scripts"], "gc0": path["gc0"], "drivers": drivers, "flips": job.get("flips")}
             drift = None
             sched = []
-            run = Run(env, j["scripts"], j["gc0"], drivers, watchdog=job.get("watchdog", 15.0))
+            run = Run(env, j["scripts"], j["gc0"], drivers, watchdog=job.get("watchdog", 15.0), flips=j["flips"])
             st = [run.obs()]
             try:
                 cur = path["root"]
@@ -519,7 +545,11 @@ def job_replay(env, job, out):
                             break
                     if drift:
                         break
-                    if run.kind[t - 1] == "fin":
+                    if ((run.n + 1) in en) != run.env_enabled():
+                        drift = {"step": k, "what": "environment step enabled in %s only" %
+                                 ("the model" if (run.n + 1) in en else "the code"), "node": nodes[cur], "code": run.proj()}
+                        break
+                    if t <= run.n and run.kind[t - 1] == "fin":
                         drift = {"step": k, "what": f"thread {t} has terminated in the code, model takes a step",
                                  "node": nodes[cur], "code": run.proj()}
                         break
@@ -569,7 +599,7 @@ def _drv(drivers):
 
 def _diff(node, proj):
     d = {}
-    for k in ("active", "saved", "gc", "lock", "ufl", "pos", "inflight", "ins"):
+    for k in ("active", "saved", "gc", "lock", "ufl", "pos", "inflight", "ins", "base", "flips"):
         if node[k] != proj[k]:
             d[k] = {"model": node[k], "code": proj[k]}
     for t, (a, b) in enumerate(zip(node["pc"], proj["pc"])):
@@ -581,7 +611,7 @@ def _diff(node, proj):
 def job_explore(env, job, out):
     """exhaustive exploration of the line interleavings of the real code by re-execution with state-hash pruning.
     Every execution is written as a trace.  job: scripts, gc0, drivers?, max_exec, part/nparts/split_depth"""
-    j = {"scripts": job["scripts"], "gc0": job["gc0"], "drivers": job.get("drivers")}
+    j = {"scripts": job["scripts"], "gc0": job["gc0"], "drivers": job.get("drivers"), "flips": job.get("flips")}
     nparts, part, split = job.get("nparts", 1), job.get("part", 0), job.get("split_depth", 0)
     max_exec = job.get("max_exec", 10 ** 9)
     deadline = time.time() + job.get("budget_s", 10 ** 9)
@@ -595,7 +625,8 @@ def job_explore(env, job, out):
                 complete = False
                 break
             pre = todo.pop()
-            run = Run(env, j["scripts"], j["gc0"], j["drivers"], watchdog=job.get("watchdog", 15.0), want_locals=True)
+            run = Run(env, j["scripts"], j["gc0"], j["drivers"], watchdog=job.get("watchdog", 15.0), want_locals=True,
+                      flips=j["flips"])
             st = [run.obs()]
             sched = []
             new = False
